@@ -1,4 +1,254 @@
 import DepsDev.Drive.Semver
-open DepsDev
+import DepsDev.Ref.CargoReq
+import DepsDev.Ref.MavenRange
+open DepsDev DepsDev.Ref
 
-def main : IO Unit := Drive.runDriver "C03" Drive.Semver.handleOrBad
+/-!
+Driver of C03. Library ops (`cparse`, `match`, …) go to the shared semver handlers
+(the model of util/semver). `refsat <eco> <range ast> <version ast>` is answered by
+the Ref specs and `classify …` by the finding-class predicates of `DepsDev/Ref/*`.
+The ASTs arrive as comma separated tokens `<letter><payload>` and are decoded
+structurally (no version-string parsing); spelling tokens (`V`, `B…`, blank and
+separator digits) are dropped.
+-/
+namespace C03Drive
+
+/-- Decimal payload: digits only, below 2^63 (the harness's int64). -/
+def natTok (cs : List Char) : Option Nat :=
+  if cs.isEmpty || !cs.all Char.isDigit then none else
+  let n := cs.foldl (fun n c => n * 10 + (c.toNat - 48)) 0
+  if n < 2 ^ 63 then some n else none
+
+def toks (s : String) : List (List Char) :=
+  if s == "-" then [] else (s.splitOn ",").map String.toList
+
+/-! ### SemVer family -/
+
+structure PAcc where
+  nums : List XR := []
+  pre : List Ident := []
+  v : Bool := false
+
+def PAcc.ok (a : PAcc) : Bool := 1 ≤ a.nums.length && a.nums.length ≤ 3
+def PAcc.partial (a : PAcc) : Partial := { nums := a.nums, pre := a.pre }
+
+/-- Consumes the tokens of one partial version; `none` = malformed token. -/
+def decPartial : List (List Char) → PAcc → Option (PAcc × List (List Char))
+  | [], a => some (a, [])
+  | t :: rest, a =>
+    match t with
+    | [] => none
+    | 'V' :: _ => decPartial rest { a with v := true }
+    | 'N' :: d => (natTok d).bind fun n => decPartial rest { a with nums := a.nums ++ [.n n] }
+    | 'X' :: _ | 'Y' :: _ | 'Z' :: _ => decPartial rest { a with nums := a.nums ++ [.x] }
+    | 'I' :: d => (natTok d).bind fun n => decPartial rest { a with pre := a.pre ++ [.num n] }
+    | 'S' :: d => if d.isEmpty then none else decPartial rest { a with pre := a.pre ++ [.alnum (String.ofList d)] }
+    | 'B' :: _ => decPartial rest a
+    | _ => some (a, t :: rest)
+
+def decSemVer (s : String) : Option SemVerAst := do
+  let (a, rest) ← decPartial (toks s) {}
+  if !rest.isEmpty || a.v then none else
+  match a.nums with
+  | [.n M, .n m, .n p] => some { major := M, minor := m, patch := p, pre := a.pre }
+  | _ => none
+
+def opOf : Char → Option Op
+  | 'n' => some .none | 'e' => some .eq | 'g' => some .gt | 'G' => some .ge | 'l' => some .lt
+  | 'L' => some .le | 'c' => some .caret | 't' => some .tilde | 'b' => some .tilde
+  | _ => none
+
+/-- The comparators of one alternative. -/
+def decComps : List (List Char) → Nat → List Comparator → Option (List Comparator × List (List Char))
+  | ts, 0, acc => some (acc, ts)
+  | [], _, acc => some (acc, [])
+  | t :: rest, fuel + 1, acc =>
+    match t with
+    | ['C', o, _, _] => do
+      let op ← opOf o
+      let (a, rest') ← decPartial rest {}
+      if !a.ok then none else
+      decComps rest' fuel (acc ++ [{ op := op, p := a.partial }])
+    | 'C' :: _ => none
+    | _ => some (acc, t :: rest)
+
+def decAlts : List (List Char) → Nat → List Alt → Option (List Alt)
+  | [], _, acc => some acc
+  | _, 0, _ => none
+  | t :: rest, fuel + 1, acc =>
+    match t with
+    | ['A', _] =>
+      match rest with
+      | ['H'] :: rest1 => do
+        let (lo, rest2) ← decPartial rest1 {}
+        if !lo.ok then none else
+        match rest2 with
+        | ['T'] :: rest3 => do
+          let (hi, rest4) ← decPartial rest3 {}
+          if !hi.ok then none else
+          decAlts rest4 fuel (acc ++ [.hyphen lo.partial hi.partial])
+        | _ => none
+      | _ => do
+        let (cs, rest') ← decComps rest (rest.length + 1) []
+        if cs.isEmpty then none else
+        decAlts rest' fuel (acc ++ [.comps cs])
+    | _ => none
+
+def decRange (s : String) : Option RangeAst :=
+  let ts := toks s
+  decAlts ts (ts.length + 1) []
+
+/-- A Cargo requirement spelled with `~>` is not in the crate's grammar. -/
+def hasBacon (s : String) : Bool := (toks s).any fun t => match t with | 'C' :: 'b' :: _ => true | _ => false
+
+/-! ### PEP 440 -/
+
+structure VAcc where
+  v : PepVer := { rel := [] }
+  star : Bool := false
+
+def decPepVer : List (List Char) → VAcc → Option (VAcc × List (List Char))
+  | [], a => some (a, [])
+  | t :: rest, a =>
+    match t with
+    | [] => none
+    | 'N' :: d => (natTok d).bind fun n => decPepVer rest { a with v := { a.v with rel := a.v.rel ++ [n] } }
+    | 'P' :: k :: d =>
+      if d.isEmpty then none else
+      match (match k with | 'a' => some PreKind.a | 'b' => some PreKind.b | 'r' => some PreKind.rc | _ => none), natTok d with
+      | some k, some n => decPepVer rest { a with v := { a.v with pre := some (k, n) } }
+      | _, _ => none
+    | 'P' :: _ => none
+    | 'O' :: d => (natTok d).bind fun n => decPepVer rest { a with v := { a.v with post := some n } }
+    | 'D' :: d => (natTok d).bind fun n => decPepVer rest { a with v := { a.v with dev := some n } }
+    | 'X' :: _ => decPepVer rest { a with star := true }
+    | _ => some (a, t :: rest)
+
+def decPepCand (s : String) : Option PepVer := do
+  let (a, rest) ← decPepVer (toks s) {}
+  if !rest.isEmpty || a.star || a.v.rel.isEmpty then none else some a.v
+
+def pepOpOf : Char → Option PepOp
+  | 'e' => some .eq | 'x' => some .ne | 'L' => some .le | 'G' => some .ge | 'l' => some .lt | 'g' => some .gt
+  | 'b' => some .compat | _ => none
+
+def decPepSpecGo : List (List Char) → Nat → PepSpec → Option PepSpec
+  | [], _, acc => some acc
+  | _, 0, _ => none
+  | t :: rest, fuel + 1, acc =>
+    match t with
+    | ['C', o, _, _] => do
+      let op ← pepOpOf o
+      let (a, rest') ← decPepVer rest {}
+      if a.v.rel.isEmpty then none else
+      decPepSpecGo rest' fuel (acc ++ [{ op := op, v := a.v, star := a.star }])
+    | _ => none
+
+def decPepSpec (s : String) : Option PepSpec :=
+  let ts := toks s
+  decPepSpecGo ts (ts.length + 1) []
+
+/-! ### Maven -/
+
+def qualOf (s : String) : Option MvnQual :=
+  if s == "alpha" then some .alpha else if s == "beta" then some .beta else if s == "milestone" then some .milestone
+  else if s == "rc" then some .rc else if s == "snapshot" then some .snapshot else if s == "sp" then some .sp else none
+
+def decMvnVer : List (List Char) → MvnVer → Option (MvnVer × List (List Char))
+  | [], a => some (a, [])
+  | t :: rest, a =>
+    match t with
+    | [] => none
+    | 'N' :: d => (natTok d).bind fun n => decMvnVer rest { a with nums := a.nums ++ [n] }
+    | 'Q' :: d => (qualOf (String.ofList d)).bind fun q => decMvnVer rest { a with qual := q }
+    | 'M' :: d => (natTok d).bind fun n => if n == 0 || a.qual == .release then none else decMvnVer rest { a with qn := n }
+    | _ => some (a, t :: rest)
+
+def decMvnVerNE (ts : List (List Char)) : Option (MvnVer × List (List Char)) := do
+  let (v, rest) ← decMvnVer ts { nums := [] }
+  if v.nums.isEmpty then none else some (v, rest)
+
+def decMvnCand (s : String) : Option MvnVer := do
+  let (v, rest) ← decMvnVerNE (toks s)
+  if rest.isEmpty then some v else none
+
+def decMvnItems : List (List Char) → Nat → MvnRange → Option MvnRange
+  | [], _, acc => some acc
+  | _, 0, _ => none
+  | t :: rest, fuel + 1, acc =>
+    match t with
+    | ['S'] => do
+      let (v, rest') ← decMvnVerNE rest
+      decMvnItems rest' fuel (acc ++ [.soft v])
+    | ['E', _] => do
+      let (v, rest') ← decMvnVerNE rest
+      decMvnItems rest' fuel (acc ++ [.exact v])
+    | ['R', li, hi, _] => do
+      let (lo, rest1) ← (match rest with
+        | ['L'] :: r => (decMvnVerNE r).map fun (v, r') => (some v, r')
+        | r => some (none, r))
+      let (up, rest2) ← (match rest1 with
+        | ['U'] :: r => (decMvnVerNE r).map fun (v, r') => (some v, r')
+        | r => some (none, r))
+      decMvnItems rest2 fuel (acc ++ [.range (li == '1') (hi == '1') lo up])
+    | _ => none
+
+def decMvnRange (s : String) : Option MvnRange :=
+  let ts := toks s
+  decMvnItems ts (ts.length + 1) []
+
+/-! ### ops -/
+
+def b2s (b : Bool) : String := if b then "1" else "0"
+
+def refsat (eco r v : String) : Option String :=
+  if eco == "npm" || eco == "cargo" then do
+    let rg ← decRange r
+    let ver ← decSemVer v
+    if eco == "npm" then
+      some (if !NpmRange.valid rg then "invalid" else b2s (NpmRange.satisfies rg ver))
+    else
+      some (if hasBacon r || !CargoReq.valid rg then "invalid" else b2s (CargoReq.matches rg ver))
+  else if eco == "pypi" then do
+    let s ← decPepSpec r
+    let c ← decPepCand v
+    if c.pre.isSome || c.post.isSome || c.dev.isSome then none else
+    some (if !Pep440Spec.valid s then "invalid" else b2s (Pep440Spec.contains s c.rel))
+  else if eco == "maven" then do
+    let rg ← decMvnRange r
+    let c ← decMvnCand v
+    some (if !MavenRange.valid rg then "invalid" else b2s (MavenRange.contains rg c))
+  else none
+
+def classify (eco r v : String) : Option (List String) :=
+  if eco == "npm" then do
+    let rg ← decRange r
+    let ver ← decSemVer v
+    some (NpmRange.classes rg ver)
+  else if eco == "cargo" then do
+    let rg ← decRange r
+    let ver ← decSemVer v
+    some (CargoReq.classes rg ver)
+  else if eco == "pypi" then do
+    let s ← decPepSpec r
+    let _ ← decPepCand v
+    some (Pep440Spec.classes s)
+  else if eco == "maven" then do
+    let rg ← decMvnRange r
+    let c ← decMvnCand v
+    some (MavenRange.classes rg c)
+  else none
+
+def handle (args : List String) : String :=
+  match args with
+  | ["refsat", eco, r, v] => match refsat eco r v with | some a => "ok " ++ a | none => "bad-op"
+  | ["classify", eco, r, v] =>
+    match classify eco r v with
+    | some [] => "ok -"
+    | some cl => "ok " ++ ",".intercalate cl
+    | none => "bad-op"
+  | _ => Drive.Semver.handleOrBad args
+
+end C03Drive
+
+def main : IO Unit := Drive.runDriver "C03" C03Drive.handle
